@@ -88,6 +88,9 @@ type Chain struct {
 	ChainID uint64
 	// BlockTime is the timestamp distance between a block and its parent.
 	BlockTime uint64
+	// LenientRanges: eth_getLogs with fromBlock > toBlock is answered with an empty
+	// result instead of geth's "invalid block range params" (clients differ).
+	LenientRanges bool
 
 	calls   int
 	failAt  map[int]bool
@@ -325,9 +328,11 @@ func (c *Chain) Clone() *Chain {
 		ChainID:   c.ChainID,
 		BlockTime: c.BlockTime,
 		calls:     c.calls,
-		failAt:    map[int]bool{},
-		keepLog:   c.keepLog,
-		callLog:   append([]Call(nil), c.callLog...),
+
+		LenientRanges: c.LenientRanges,
+		failAt:        map[int]bool{},
+		keepLog:       c.keepLog,
+		callLog:       append([]Call(nil), c.callLog...),
 	}
 	for k, v := range c.byHash {
 		n.byHash[k] = v
@@ -728,6 +733,9 @@ func (a *ethAPI) GetLogs(ctx context.Context, crit FilterCriteria) ([]*types.Log
 		return nil, err
 	}
 	if from > to {
+		if c.LenientRanges {
+			return out, nil
+		}
 		return nil, errors.New("invalid block range params")
 	}
 	if to > head { // a node answers for the part of the range it has
